@@ -33,22 +33,25 @@ def embeds_keeping(s, r, sh):
     n, m = len(s), len(r)
     if m > n:
         return False
-    # dp over prefixes; prev[j] = s[:i] can yield r[:j]
-    prev = [False] * (m + 1)
-    prev[0] = True
-    for i in range(1, n + 1):
-        cur = [False] * (m + 1)
-        ch, can_drop = s[i - 1], sh[i - 1]
-        lo = max(0, m - (n - i))  # need enough characters left
-        for j in range(0, min(i, m) + 1):
-            ok = False
-            if can_drop and prev[j]:
-                ok = True
-            elif j > 0 and prev[j - 1] and r[j - 1] == ch:
-                ok = True
-            cur[j] = ok
-        prev = cur
-    return prev[m]
+    if r == s:
+        return True
+    # reach = set of j such that s[:i] can yield r[:j]; unshadowed characters must be kept, so the set stays small
+    reach = {0}
+    for i in range(n):
+        ch, can_drop = s[i], sh[i]
+        nxt = set()
+        for j in reach:
+            if can_drop:
+                nxt.add(j)
+            if j < m and r[j] == ch:
+                nxt.add(j + 1)
+        if not nxt:
+            return False
+        # prune: r[j:] must still fit into what is left of s
+        reach = {j for j in nxt if m - j <= n - i - 1}
+        if not reach:
+            return False
+    return m in reach
 
 
 def build_string(case):
@@ -114,6 +117,7 @@ TEXT = st.one_of(st.text(alphabet=_TEXT_ALPHA, min_size=1, max_size=5), st.text(
                  st.text(alphabet=_TEXT_ALPHA, min_size=30, max_size=200))
 FINALS = "mmmmHJKABCDfGsudhlr@`~"
 SGR_PARAMS = st.one_of(
+    st.sampled_from([[10 ** 19], [2 ** 64, 1], [int("7" * 400)], [0] * 40, [1, 31] * 12]),
     st.lists(st.sampled_from([0, 1, 2, 3, 4, 5, 7, 22, 24, 27, 31, 32, 39, 41, 44, 49, 90, 97, 100]), min_size=0, max_size=3),
     st.sampled_from([[38, 5, 196], [48, 5, 21], [38, 2, 1, 2, 3], [1, 31], [0, 1], [10, 20], [2], [999]]),
 )
@@ -153,6 +157,10 @@ REAL_WORLD = [
     "".join("\x1b[38;5;%dmx" % i for i in range(40)) + "\x1b[0m",
     "\x1b[31mred\x1b[39m \x1bMline1\nline2",
     "top\x1b[?25l\nhidden cursor\x1b[?25h\nend",
+    "x\x1b[" + "7" * 5000 + "my",
+    "x\x1b[" + "1;" * 600 + "1mz\x1b[0m",
+    "a\x1b[" + "9" * 400 + "Hb",
+    "\x1b[31m" + "q" * 5000 + "\x1b[39m",
 ]
 
 
